@@ -274,7 +274,11 @@ inductive Op where
                                      --   tools.py:352-353: no table access),
                                      -- 2 a debug / profiling option is switched, 3 asynq.mock.patch replaces and restores the
                                      -- function, 4 a receiver instance / a bound wrapper is copied, 5 the garbage collector runs,
-                                     -- 6 the synchronous call `f(args)` (AsyncDecorator.__call__ -> _call_pure: no table access).
+                                     -- 6 the synchronous call `f(args)` (AsyncDecorator.__call__ -> _call_pure: no table access),
+                                     -- 7 the thread-local scheduler of a thread is REPLACED (`asynq.scheduler.reset()`,
+                                     --   scheduler.py:331: what a harness does after an aborted computation), 8 it is EMPTIED
+                                     --   (`TaskScheduler.reset()`, scheduler.py:58). The key holds the THREAD
+                                     --   (`threading.current_thread()`, tools.py cache_key), not its scheduler.
                                      -- None of them reads or writes `DeduplicateDecorator.tasks`.
   deriving Repr, DecidableEq, Inhabited
 
